@@ -54,6 +54,13 @@ pub fn supplement_ops() -> Vec<Op> {
         ops.push(Op::Mkfile(s(p)));
         ops.push(Op::MkfileM(s(p), 0o600));
         ops.push(Op::MkfileM(s(p), 0o755));
+        // modes beyond rwx: special bits and explicit file-type bits must be forwarded untouched
+        ops.push(Op::MkfileM(s(p), 0o4755));
+        ops.push(Op::MkfileM(s(p), 0o100644));
+        ops.push(Op::MkdirM(s(p), 0o1777));
+        ops.push(Op::MkdirM(s(p), 0o40750));
+        ops.push(Op::Chmod(s(p), 0o2750));
+        ops.push(Op::ChmodB(s(p), ChmodSel::All(0o4711), true, false));
         ops.push(Op::MkdirP(s(p)));
         ops.push(Op::MkdirM(s(p), 0o700));
         ops.push(Op::MkdirM(s(p), 0o751));
